@@ -59,7 +59,15 @@ def gen_sig(rng, k):
     for i in range(rng.randint(0, 4)):
         name = "x%d" % i
         c = rng.random()
-        if c < 0.2:
+        if s.impl_lts and c < 0.08:
+            # the holder's own type spelled `Self` behind a named reference: `&'x Self` is `&'x H<'h>`, so 'h: 'x holds by well-formedness.
+            # (The gate asks for that bound to be restated and a where clause cannot be generated here, so on a correct tree these are
+            # refused and dropped below; a tree that accepts them must also report the edges the bound implies: seed C04-h.)
+            x = pick()
+            s.params.append((name, "opaque", rng.choice(["&'%s Self", "Option<&'%s Self>"]) % x, [x, "h"], None))
+            if x != "h":
+                s.implied.add(("h", x))
+        elif c < 0.2:
             lt = maybe_anon()
             s.params.append((name, "opaque", rng.choice(["&%s Op", "&%s mut Op", "Option<&%s Op>"]) % (("'" + lt) if lt else ""), [lt], None))
         elif c < 0.4:
@@ -235,7 +243,7 @@ def rustc_probe_source(sigs):
         ps = []
         if s.self_lt != "none":
             ps.append("this: &%s H%s" % (("'%s" % s.self_lt) if s.self_lt else "", "<'h>" if s.impl_lts else ""))
-        ps += ["%s: %s" % (p[0], p[2]) for p in s.params]
+        ps += ["%s: %s" % (p[0], p[2].replace("Self", "H<'h>")) for p in s.params]
         holder = "pub struct H%s(pub %s);" % ("<'h>" if s.impl_lts else "", "&'h u8" if s.impl_lts else "u8")
         for i in env:
             for o in sorted(set(s.out_lts)):
